@@ -859,6 +859,11 @@ def build_module_stubs(entries: Iterable[FunctionDefinition]) -> Dict[str, Modul
         func_stub = FunctionStub(
             name, entry.signature, entry.kind, list(imports.keys()), entry.is_async
         )
+        # The generated TypedDict classes are rendered into the same module stub:
+        # their field types need imports too (e.g. `a: List[int]`).
+        for typed_dict_class_stub in entry.typed_dict_class_stubs:
+            for attribute_stub in typed_dict_class_stub.attribute_stubs:
+                imports.merge(get_imports_for_annotation(attribute_stub.typ))
         # Don't need to import anything from the same module
         imports.pop(entry.module, None)
         mod_stub.imports_stub.imports.merge(imports)
